@@ -12,7 +12,7 @@ var e2RealStub = map[string]string{
 
 func init() {
 	props["C15"] = &propCfg{Engine: "E2", Level: "exploration", QuickRuns: 1500, ThoroughMax: 4_000_000, Race: true, Instrument: true, RealStub: e2RealStub,
-		Rule:        "one run = one freshly built generator expression (nesting of IntRange, Filter, Map, OneOf, Deferred, Custom, StringMatching, String, SampledFrom, SliceOfN; depth <= 4) shared by 2-4 simulated goroutines, each performing one use with its own T: a passing Check, a failing (minimizing) Check, Example(seed), String(), or use as a sub-generator; first uses race with later uses under a tape-chosen schedule policy; afterwards every use is repeated alone on a fresh generator and compared; non-trivial = every run (>= 2 goroutines share one generator); distinct by hash(schedule fingerprint, generator expression, uses)",
+		Rule:        "one run = one freshly built generator expression (nesting of IntRange, Filter, Map, OneOf, Deferred, Custom, StringMatching incl. look-alike regexps, String, StringOf, StringN, SliceOfBytesMatching, SampledFrom, SliceOfN, SliceOfDistinct, MapOf/MapOfN/MapOfValues, Permutation, Ptr, Float64Range, Make; depth <= 4) shared by 2-4 simulated goroutines, each performing one use with its own T: a passing Check, a failing (minimizing) Check, Example(seed), String(), or use as a sub-generator; first uses race with later uses under a tape-chosen schedule policy; afterwards every use is repeated alone on a fresh generator and compared; non-trivial = every run (>= 2 goroutines share one generator); distinct by hash(schedule fingerprint, generator expression, uses)",
 		SimTimeNote: "0: no clock in the scheduled sections; simulated time is not a dimension of this property"}
 	props["C14"] = &propCfg{Engine: "E2", Level: "exploration", QuickRuns: 2000, ThoroughMax: 4_000_000, Race: true, Instrument: true, RealStub: e2RealStub,
 		Rule:        "one run = a Check (checks 1-3, -rapid.v on/off, optionally on a Custom generator's inner T) whose property spawns 1-4 simulated goroutines, each with 1-6 tape-chosen operations from {Helper, Name, Log, Logf, Error, Errorf, Fail, Failed, Context, Cleanup(f)} while the main goroutine does the same; every invocation of the property is one scheduled section under a tape-chosen policy (uniform / bursty / PCT d=1..3); non-trivial = at least one section with >= 2 goroutines; distinct by hash(schedule fingerprints of all sections, operation lists)",
